@@ -403,11 +403,44 @@ func runMachine(t *rapid.T, concurrent bool) {
 		lastSpecial = rec.Route == -1 || panics
 		registeredSinceMoreParams = false
 	}
+	// a second Mux in the same process, with routes of its own: its traffic is part of the history of the process, but
+	// nothing of it may show in what the handlers of the first Mux observe (and the other way round)
+	var tb2 *table
+	requestOnOtherMux := func(t *rapid.T) {
+		if tb2 == nil {
+			tb2 = newTable(rapid.IntRange(0, 2).Draw(t, "relayMode2"))
+			for _, p := range rapid.SliceOfNDistinct(rapid.SampledFrom(routePool), 1, 4, func(s string) string { return s }).Draw(t, "routes2") {
+				r, ok := rm.NewRoute(p, "*")
+				if !ok {
+					t.Fatalf("pool route invalid: %s", p)
+				}
+				dup := false
+				for _, a := range tb2.routes {
+					dup = dup || rm.SameShape(a, r)
+				}
+				if !dup {
+					tb2.add(r)
+				}
+			}
+		}
+		rq := request{
+			method: rapid.SampledFrom([]string{"GET", "POST"}).Draw(t, "method"),
+			path:   genPathFor(tb2.routes).Draw(t, "path"),
+			panics: rapid.IntRange(0, 5).Draw(t, "panics") == 0,
+		}
+		hist = append(hist, "request on the second Mux "+rq.String())
+		rec, esc := tb2.serve(rq)
+		if m := tb2.judge(rq, rec, esc); m != "" {
+			fail("second Mux: " + m)
+		}
+		ev.Label("history:second_Mux_served_requests_in_between")
+	}
 	actions := map[string]func(*rapid.T){
-		"register":      register,
-		"request":       func(t *rapid.T) { doRequest(t, false) },
-		"request2":      func(t *rapid.T) { doRequest(t, false) },
-		"requestPanics": func(t *rapid.T) { doRequest(t, true) },
+		"requestOnOtherMux": requestOnOtherMux,
+		"register":          register,
+		"request":           func(t *rapid.T) { doRequest(t, false) },
+		"request2":          func(t *rapid.T) { doRequest(t, false) },
+		"requestPanics":     func(t *rapid.T) { doRequest(t, true) },
 	}
 	if concurrent {
 		actions["burst"] = func(t *rapid.T) {
